@@ -74,6 +74,7 @@ func runE2EHistory(seed int64, h int, pool map[string][]*poolKey, ca *caSet, dir
 	}
 	res.Cfg = cfg
 	res.Kinds = cfg.kinds()
+	res.Relabels, res.RelabelsMore = cfg.relabels()
 	defer func() { cfg.lazyPrecheck(&res, dir) }()
 	hdir, err := os.MkdirTemp(dir, "e2e-")
 	if err != nil {
